@@ -1,13 +1,17 @@
 """copy seeded mutations from the scratch worktrees into /verif/seeded/<id>/ and merge evaluation results"""
 import json, glob, os, shutil, sys
 res = {}
+first = {}
 for log in sys.argv[1:]:
     for l in open(log):
         try:
             r = json.loads(l)
         except ValueError:
             continue
-        res[os.path.basename(r['dir'])] = r
+        k = os.path.basename(r['dir'])
+        if k in res:
+            first.setdefault(k, res[k])
+        res[k] = dict(res.get(k, {}), **r)
 for d in sorted(glob.glob('/tmp/wt*/seeded/C*_*')):
     mid = os.path.basename(d)
     dst = os.path.join('/verif/seeded', mid)
@@ -32,5 +36,11 @@ for d in sorted(glob.glob('/tmp/wt*/seeded/C*_*')):
             'what_i_ran': './check %s --tier quick against the patched tree' % meta.get('property'),
             'caught': r.get('caught'), 'with_failing_input': r.get('with_input'), 'seconds': r.get('check_s'),
             'output': r.get('check_lines')}
+    if mid in first:
+        f = first[mid]
+        meta['detection_at_first_evaluation'] = {'caught': f.get('caught'), 'with_failing_input': f.get('with_input'),
+                                                 'output': f.get('check_lines')}
+    elif old.get('detection_at_first_evaluation'):
+        meta['detection_at_first_evaluation'] = old['detection_at_first_evaluation']
     json.dump(meta, open(os.path.join(dst, 'meta.json'), 'w'), indent=1)
 print(len(glob.glob('/verif/seeded/C*_*')), 'seeded mutations stored')
